@@ -67,7 +67,7 @@ def plan(tier):
     global DOCS, PURE, CREATE_DOCS
     nmax = 3 if tier == "quick" else 4
     DOCS = corpus.docs(nmax, (None, 1000, "a"), ("a", "b"))
-    DOCS += corpus.collision_pack() + share_pack()
+    DOCS += corpus.collision_pack() + share_pack() + corpus.merge_pack()
     voc = paths.vocab("c01-quick")
     PURE = []
     for p in paths.upto(voc, 2):
